@@ -23,7 +23,7 @@ pub struct Cfg {
     pub pubs: Vec<usize>,
 }
 
-pub const TNAMES: [&str; 5] = ["a", "b", "c", "d", "e"];
+pub const TNAMES: [&str; 8] = ["a", "b", "c", "d", "e", "f", "g", "h"];
 
 impl Cfg {
     pub fn size(&self) -> usize {
